@@ -1,5 +1,5 @@
 //! C15 — CFG construction and editing keep graphs consistent and meaning intact.
-use crate::explore::history::{explore, Subject};
+use crate::explore::history::{explore_traced, Subject};
 use crate::report::{Acc, Describe};
 use crate::util::{guarded, panic_class};
 use crate::{Ctx, Prop};
@@ -518,14 +518,14 @@ fn run(ctx: &Ctx) -> Acc {
     if ctx.shard == 0 {
         // depth counts the Start pseudo-operation
         let (lvl, depth) = if thorough { (1u8, 5usize) } else { (1u8, 4usize) };
-        let a = explore(Sub { level: lvl }, Some(depth), 8);
+        let a = explore_traced(Sub { level: lvl }, Some(depth), 8, ctx.trace_path.as_deref());
         acc.merge(a);
         acc.max("max_depth_reduced_alphabet", (depth - 1) as u64);
         acc.count("traces", acc.get("merge_transitions_checked") + acc.get("append_transitions_checked"));
         acc.sample(json!({"history": [["start", 2], ["merge"]], "checked": "invariants in every state, trace language across merge/append"}));
     } else if ctx.shard == 1 {
         let depth = if thorough { 4usize } else { 3usize };
-        let a = explore(Sub { level: 2 }, Some(depth), 8);
+        let a = explore_traced(Sub { level: 2 }, Some(depth), 8, ctx.trace_path.as_deref());
         acc.merge(a);
         acc.max("max_depth_full_alphabet", (depth - 1) as u64);
         let mut seqs: Vec<Vec<usize>> = vec![vec![]];
